@@ -355,11 +355,14 @@ PROPS["C15"] = dict(
          "the sender waits 0.7 s so that its session has written everything, then close / term / close+term / drop+term with LINGER in "
          "{-1,0,100 ms,10 s}; the receiver has RCVHWM in {1,5,50(,2,20,100)} and RCVBATCH_COUNT {default,1,4} and either starts reading only "
          "after the close has returned or reads at 2-5 ms per message, so that accepted messages are still parked in the receiving session "
-         "and per-pipe queue when the peer's end-of-stream arrives: every accepted message must still be received, exactly once and intact.",
+         "and per-pipe queue when the peer's end-of-stream arrives: every accepted message must still be received, exactly once and intact. "
+         "(bounded) PUSH / ROUTER / PUB over inproc with a backlog towards a peer that never reads (RCVHWM 4), LINGER 0 / 300 / 1000 (/ 50) ms, "
+         "close(): the call returns promptly and the peer's monitor reports the disconnect within LINGER + 2 s - a bounded LINGER expires.",
     assumptions=["'ample' LINGER = 10 s for at most 20 MB over loopback", "PUB may legitimately drop, so completeness is not required of it",
                  "DEALER loss/reorder is recorded under C01 and not re-judged here"],
     shards=lambda tier, seed: sharded("c15", _n(tier, 12, 16), _n(tier, 600, 3000))
-    + sharded("c15", _n(tier, 4, 8), _n(tier, 600, 1800), extra=["--only", "settled"], name="c15-settled"),
+    + sharded("c15", _n(tier, 4, 8), _n(tier, 600, 1800), extra=["--only", "settled"], name="c15-settled")
+    + sharded("c15", 3, 600, extra=["--only", "bounded"], name="c15-bounded"),
     max_parallel=8,
     min_evaluations={"quick": 30, "thorough": 300},
 )
